@@ -209,6 +209,7 @@ class C13(core.Check):
                    'numeric-expression alternative, so its order relative to those is not examined',
                    'a specific-operand list whose length differs from count is not generated (malformed by C19)')
     chunk = 1500
+    no_image_reject = lambda self, c: c['meta'].get('kind') == 'REJECT'
     crosscheck_every = {'quick': 50, 'thorough': 50}
     required_buckets = {b: 3 for b in [
         'amb:variant1-and-2-accept', 'amb:specific-and-set-accept', 'amb:disallowed-pair-hit', 'amb:bracketed-vs-numeric-set',
@@ -219,11 +220,12 @@ class C13(core.Check):
         'amb:key-vs-relative-address', 'amb:decorated-register-vs-numeric', 'amb:implied-operand-entry-vs-shorter-variant',
         'amb:out-of-range-literal-with-later-accepting-candidate', 'primer:earlier-statement-took-a-later-variant', 'amb:listed-combination-named-like-the-disallowed-pair', 'amb:index-key-vs-index-expression', 'amb:register-that-reads-as-a-number',
         'amb:register-vs-numeric-enumeration', 'amb:register-vs-numeric-enumeration-with-argument-table-only',
-        'amb:key-that-stands-for-0-vs-label', 'operator-inside-bracketed-or-indexed-form', 'reject:empty-operand-beside-a-comma', 'definition-shared-by-anchor-and-alias']}
+        'amb:key-that-stands-for-0-vs-label', 'operator-inside-bracketed-or-indexed-form', 'reject:empty-operand-beside-a-comma', 'definition-shared-by-anchor-and-alias', 'chosen:variant-behind-one-without-operands']}
 
     def gen_isa(self, rng, force_empty=False, force_dp=False, force_ne=False, force_idx=False):
         self._dp_pair = None
         self._ne_regs = None
+        self._opless_at = None
         self._idx = False
         pool = alt_pool(rng)
         names = sorted(pool)
@@ -351,7 +353,11 @@ class C13(core.Check):
                 ops['specific_operands'] = entries
             variants.append({'bytecode': {'value': 0xA0 + vi, 'size': 8}, 'operands': ops})
         if rng.random() < 0.3:
-            variants.append({'bytecode': {'value': 0xAF, 'size': 8}})       # a variant without operands
+            # a variant without operands (no operands section at all), anywhere in the order: a statement with operands goes on
+            # to the variants behind it
+            at_ = rng.choice([0, 0, len(variants) // 2, len(variants)])
+            variants.insert(at_, {'bytecode': {'value': 0xAF, 'size': 8}})
+            self._opless_at = at_ if at_ < len(variants) - 1 else None
         conf = dict(variants[0])
         if len(variants) > 1:
             conf['variants'] = variants[1:]
@@ -530,6 +536,8 @@ class C13(core.Check):
                     tags.add('amb:disallowed-pair-hit')
                 if mirrored and [op['id'] for op in stmt['ops']] == [mirrored[1][1], mirrored[1][0]] and stmt['spec'] is None:
                     tags.add('amb:disallowed-pair-mirrored-is-allowed')
+                if self._opless_at is not None and operands and int(info['chosen'][1]) > self._opless_at:
+                    tags.add('chosen:variant-behind-one-without-operands')
                 if int(info['chosen'][1]) >= 1:
                     tags.add('chosen:variant>=2')
                     tags.add('later-candidate-after-nonaccepting-earlier')
